@@ -143,6 +143,26 @@ Proof.
   apply (cmp_locally_const req); intros y H; unfold req; repeat destruct (Req_EM_T _ _); try reflexivity; lra.
 Qed.
 
+(* anp.rint / anp.round / anp.around (decimals = 0): the nearest integer, ties to the even one *)
+Definition rrint (x : R) : R :=
+  let n := Int_part (x + / 2) in
+  if Req_EM_T (x + / 2) (IZR n) then (if Z.even n then IZR n else IZR n - 1) else IZR n.
+Definition half_integer (x : R) : Prop := exists z : Z, x + / 2 = IZR z.
+
+Lemma rrint_between (n : Z) (y : R) : IZR n < y + / 2 < IZR n + 1 -> rrint y = IZR n.
+Proof.
+  intros H. unfold rrint. rewrite (Int_part_interval n (y + / 2)) by lra.
+  destruct (Req_EM_T (y + / 2) (IZR n)); [lra|reflexivity].
+Qed.
+
+Lemma rrint_locally_const x : ~ half_integer x -> locally_const rrint x.
+Proof.
+  intros Hx. destruct (base_Int_part (x + / 2)) as [H1 H2]. set (n := Int_part (x + / 2)) in *.
+  assert (Hne : x + / 2 <> IZR n) by (intros E; apply Hx; now exists n).
+  apply (locally_interval _ (IZR n - / 2) (IZR n + / 2)); [lra|].
+  intros y Hy. rewrite (rrint_between n y), (rrint_between n x) by lra. reflexivity.
+Qed.
+
 (* the property's own example, and its relatives *)
 Theorem x_floor_x_differentiates_to_floor x : non_integer x -> is_derive (fun y => y * rfloor y) x (rfloor x).
 Proof. intros H. apply derive_id_mul_locally_const, rfloor_locally_const, H. Qed.
@@ -156,6 +176,7 @@ Inductive pc_member : (R -> R) -> R -> Prop :=
 | pc_floor x : non_integer x -> pc_member rfloor x
 | pc_ceil x : non_integer x -> pc_member rceil x
 | pc_trunc x : non_integer x -> pc_member rtrunc x
+| pc_rint x : ~ half_integer x -> pc_member rrint x
 | pc_sign x : x <> 0 -> pc_member rsign x
 | pc_gt c x : x <> c -> pc_member (rgt c) x
 | pc_ge c x : x <> c -> pc_member (rge c) x
@@ -165,7 +186,7 @@ Inductive pc_member : (R -> R) -> R -> Prop :=
 
 Lemma pc_member_locally_const f x : pc_member f x -> locally_const f x.
 Proof.
-  intros [ ]; auto using rfloor_locally_const, rceil_locally_const, rtrunc_locally_const, rsign_locally_const,
+  intros [ ]; auto using rfloor_locally_const, rceil_locally_const, rtrunc_locally_const, rrint_locally_const, rsign_locally_const,
     rgt_locally_const, rge_locally_const, rlt_locally_const, rle_locally_const, req_locally_const.
 Qed.
 
